@@ -43,7 +43,7 @@ def run_mutant(path):
             if len(parts) >= 4 and parts[0] in ('unsat', 'sat', 'unknown', 'timeout', 'error', 'disagree', 'toolarge'):
                 # name is the token that contains '/'
                 for tok in parts[1:]:
-                    if '/' in tok and not tok.endswith('s'):
+                    if '/' in tok and not re.match(r'^(z3|z3-new|cvc5)/', tok) and not re.match(r'^\d+\.\d+s$', tok):
                         status[base(tok)] = parts[0]
                         break
         hit = [e for e in m['expect'] if status.get(base(e), 'missing') not in ('unsat',)]
